@@ -4,6 +4,12 @@
 UNITS = [
     {'name': 'bitvec.core', 'backend': 'verus', 'tier': 'quick'},
     {'name': 'bitvec.iter', 'backend': 'verus', 'tier': 'quick'},
+    {'name': 'bfv.core@u64', 'backend': 'verus', 'tier': 'quick'},
+    {'name': 'bfv.core@usize', 'backend': 'verus', 'tier': 'quick'},
+    {'name': 'bfv.core@u8', 'backend': 'verus', 'tier': 'quick'},
+    {'name': 'bfv.core@u16', 'backend': 'verus', 'tier': 'quick'},
+    {'name': 'bfv.core@u32', 'backend': 'verus', 'tier': 'quick'},
+    {'name': 'bfv.core@u128', 'backend': 'verus', 'tier': 'quick'},
 ]
 
 TRUSTED_BASE = [
